@@ -154,7 +154,8 @@ Proof.
   clearbody s4.
   inversion H; subst s' evs; clear H.
   assert (Hd : c1 = c /\ h1 = h /\ d = Dt s c h + 1).
-  { match type of Hin with In _ (match ?m with Some _ => _ | None => [] end) => destruct m as [mm|]; [|contradiction] end.
+  { match type of Hin with In _ (match ?m with Some _ => _ | None => _ end) => destruct m as [mm|] end;
+      [|cbn [out1] in Hin; destruct Hin as [Hin|[]]; inversion Hin; subst; auto].
     cbn [out1 app] in Hin; destruct Hin as [Hin|Hin]; [inversion Hin; subst; auto|].
     exfalso; unfold content_frames in Hin;
        match type of Hin with In _ (match ?m with Some _ => _ | None => [] end) => destruct m; [|contradiction] end;
